@@ -12,6 +12,14 @@ every character the attribute grammar admits, %(name options)s, end-tag argument
     sort, except names, let values, raise type), quoted and unquoted (small scope, output predicted from the documented
     meaning of missing= / null=), and random templates with several such attributes (fmt, etc, size, prefix, start …);
   * stray tokens (`/`, `//`, `-`, `bogus` …) after the attributes of a tag: rejected in every spelling.
+Round 6 — histories of the TAG REGISTRY (`String.commands`, where add-ons register their tags after import): register /
+replace / remove / put back simple and block tags (own block continuations, with and without simple_form; as a class and
+as a lazy (name, module, class) entry; custom names and the built-in ones) through every handle an application has on
+the registry, and after every step USE the registry: an abstract template over the tags registered at that moment (or
+the tag just removed / a name that never was a tag / a block closed by another tag's end tag: rejected alike), printed in
+every syntax, compiled by both template classes and by plain subclasses of them, sometimes with templates of both
+classes as namespace values of one rendering; expected program / text from the abstract registry kept by the check and
+the add-on tags' documented meaning.
 Oracle (on the implementation): the spellings of one abstract template are all accepted or all rejected, their normalised
 compiled programs are equal AND equal to the program the abstract template denotes (`expect`: computed from the abstract
 template and the documented line-end rule, not from the code), and rendering them with each of several namespaces gives
@@ -20,12 +28,16 @@ predicted, the text the abstract template denotes; &dtml-name; == <dtml-var name
 &dtml.m1.m2-name; == <dtml-var name m1 m2> for every modifier subset of size <= 2 (and some larger).
 Correspondence: the compiled tree of the Lean scanner/builder model for each spelling (both printers) vs the real parser.
 Not generated (real differences of the unchanged library, see known notes in the report): a variable called `var` with
-options (<dtml-var var upper> reads the variable `upper`), unquoted values ending in a Unicode blank (U+00A0 …).
+options (<dtml-var var upper> reads the variable `upper`), unquoted values ending in a Unicode blank (U+00A0 …), registered
+tag names that begin with `end` or contain a non-letter (findings C07-tag-name-end-prefix, C07-tag-name-nonletter).
 """
+import contextlib
 import html
 import itertools
 import json
 import re
+import sys
+import types
 
 import common
 import parselib
@@ -84,10 +96,9 @@ def render(kind, src, nsf, alias=None, extra=None):
     """alias: [(new name, old name)] — the new name gets the very object the old name has in this namespace;
     extra: {name: value} added to every namespace.  With alias / extra the namespace is handed over as the mapping
     argument (names such as 'mapping' or 'a.b' cannot be keyword arguments of __call__)."""
-    from DocumentTemplate import HTML, String
     log = Log()
     try:
-        t = (HTML if kind == 'html' else String)(src)
+        t = template_class(kind)(src)
         ns = nsf(log)
         if alias or extra:
             for new, old in alias or ():
@@ -108,8 +119,45 @@ def strip_fmt(tree):
     return tree
 
 
+_CLASSES = {}
+BASE_KIND = {'html-sub': 'html', 'epfs-sub': 'epfs'}
+
+
+def template_class(kind):
+    """'html' / 'epfs': the two template classes; 'html-sub' / 'epfs-sub': plain subclasses of them (what an application
+    defines: Zope's DTMLMethod is a subclass of HTML), which inherit everything, the tag registry included"""
+    if not _CLASSES:
+        from DocumentTemplate import HTML, String
+        _CLASSES.update({'html': HTML, 'epfs': String, 'html-sub': type('SubHTML', (HTML,), {}),
+                         'epfs-sub': type('SubString', (String,), {})})
+    return _CLASSES[kind]
+
+
+def _compile_cls(cls, src):
+    """parselib.compile_real for another template class (same classification of the outcome)"""
+    from DocumentTemplate.DT_Util import ParseError
+    t = cls(src)
+
+    def go():
+        try:
+            return {'status': 'ok', 'blocks': t.parse(src)}
+        except ParseError as e:
+            m = parselib.ERR.match(str(e.args[0])) if e.args else None
+            return {'status': 'parse-error', 'msg': m.group(1) if m else str(e)}
+        except SyntaxError as e:
+            return {'status': 'syntax-error', 'msg': str(e)[:80]}
+        except RecursionError:
+            return {'status': 'recursion'}
+        except parselib.Timeout:
+            raise
+        except BaseException as e:  # noqa
+            return {'status': 'other', 'exc': type(e).__name__ + ': ' + str(e)[:100]}
+    st, v = parselib.with_alarm(go)
+    return v if st == 'ok' else {'status': 'timeout'}
+
+
 def compile_norm(kind, src):
-    rr = parselib.compile_real(kind, src)
+    rr = _compile_cls(template_class(kind), src) if kind in BASE_KIND else parselib.compile_real(kind, src)
     if rr['status'] == 'ok':
         return 'ok', parselib.norm(rr['blocks'])
     if rr['status'] == 'parse-error':
@@ -118,7 +166,7 @@ def compile_norm(kind, src):
 
 
 def check_group(res, label, sources, have_driver, reqs, req_meta, alias=None, extra=None, nss=None,
-                expect_status=None, expect_tree=None, expect_out=None, abstract=None):
+                expect_status=None, expect_tree=None, expect_out=None, abstract=None, expect_msg=None):
     """sources: list of (syntax label, kind, src) that must all mean the same.
     expect_status / expect_tree / expect_out: what the ABSTRACT template denotes (computed by the generator from the abstract
     template and the documented rules, never from the code under test): acceptance, the normalised program (WILD = the
@@ -146,6 +194,11 @@ def check_group(res, label, sources, have_driver, reqs, req_meta, alias=None, ex
                                     'accepted' if expect_status == 'ok' else 'rejected (' + expect_status + ')', base[3],
                                     json.dumps(base[4])[:300])})
         return
+    if expect_msg is not None and base[3] == 'parse-error' and base[4] != expect_msg:
+        res.oracle_fail.append({'case': dict(case0, **{c[0]: c[2] for c in comps}),
+                                'what': 'the abstract template must be rejected with %r, every spelling gives %r' % (
+                                    expect_msg, base[4])})
+        return
     if expect_tree is not None and base[3] == 'ok':
         res.count('expected_program_compared')
         if not same_tree(expect_tree, base[4]):
@@ -154,8 +207,8 @@ def check_group(res, label, sources, have_driver, reqs, req_meta, alias=None, ex
                                         json.dumps(expect_tree, default=repr)[:400], json.dumps(base[4])[:400])})
             return
     for lab, kind, src, st, tree in comps:
-        reqs.append({'op': 'compile', 'syntax': kind, 'src': src})
-        req_meta.append((lab, kind, src, st, tree))
+        reqs.append({'op': 'compile', 'syntax': BASE_KIND.get(kind, kind), 'src': src})
+        req_meta.append((lab, BASE_KIND.get(kind, kind), src, st, tree))
     if base[3] != 'ok':
         res.count('group_rejected')
         return
@@ -316,9 +369,25 @@ def expect(nodes, after_block=False):
                 out.append(['lit', t])
             after_block = False
             continue
-        after_block = k not in ('var', 'call', 'return')
+        after_block = k not in ('var', 'call', 'return', 'cs')
         if k == 'var':
             out.append(['var'] + _tgt(n[1]) + [_params(n[2]), 's'])
+        elif k == 'cs':
+            # a registered (add-on) simple tag; `sf`: the tag hands the compiler a simple form when it has nothing but a name
+            _, tname, spec, t, opts = n
+            if spec.sf and t[0] == 'name' and not opts:
+                out.append(['var', t[1], False, [], 's'])
+            else:
+                out.append(['cs', spec.cid] + _tgt(t) + [_params(opts)])
+        elif k == 'cb':
+            # a registered block tag: its sections (start tag + the continuations of ITS OWN blockContinuations)
+            _, tname, spec, secs = n
+            if spec.sf and len(secs) == 1 and secs[0][1] is not None and secs[0][1][0] == 'name' and not secs[0][2]:
+                out.append(['if', [[secs[0][1][1], False, expect(secs[0][3], True)]], None])
+            else:
+                out.append(['cb', spec.cid, 'UTF-8', [
+                    [sn, st is not None] + (_tgt(st) if st is not None else [None, False]) + [_params(so), expect(sb, True)]
+                    for sn, st, so, sb in secs]])
         elif k in ('call', 'return'):
             out.append([k] + _tgt(n[1]))
         elif k == 'comment':
@@ -465,6 +534,23 @@ class P2:
             return self.simple('var', self.join([self.target(t)] + self.opts(opts)))
         if k in ('call', 'return'):
             return self.simple(k, self.target(n[1]))
+        if k == 'cs':
+            return self.simple(n[1], self.join([self.target(n[3])] + self.opts(n[4])))
+        if k == 'cb':
+            secs = n[3]
+            args = [self.join(([self.target(st)] if st is not None else []) + self.opts(so)) for sn, st, so, sb in secs]
+            return ''.join(self.open(sn, a) + self.nodes(sb) for (sn, st, so, sb), a in zip(secs, args)) + \
+                self.close(n[1], args[0])
+        if k == 'misclosed':
+            # a block whose end tag names another tag (or the same name in another case)
+            _, tname, wrong, t, body = n
+            a = self.target(t) if t is not None else ''
+            return self.open(tname, a) + self.nodes(body) + self.close(wrong, a)
+        if k == 'unk':
+            # a tag name that is not in the registry, written as a start tag (optionally with body and end tag)
+            _, tname, t, body = n
+            a = self.target(t) if t is not None else ''
+            return self.open(tname, a) + ('' if body is None else self.nodes(body) + self.close(tname, a))
         if k == 'comment':
             return self.open('comment', '') + self.nodes(n[1]) + self.close('comment', '')
         if k == 'if':
@@ -576,6 +662,36 @@ class Raised(Exception):
     pass
 
 
+class RefSub:
+    """reference-side stand-in for a namespace value that is itself a template (of either class): its program"""
+
+    def __init__(self, tree):
+        self.tree = tree
+
+
+# the expressions the registry family writes as targets of add-on tags, with their meaning in plain Python
+REG_EXPRS = {'c': lambda ns: ns['c'], 'not d': lambda ns: not ns['d'], 's': lambda ns: ns['s'], 'seq': lambda ns: ns['seq'],
+             "s or 'none'": lambda ns: ns['s'] or 'none', 'c and s': lambda ns: ns['c'] and ns['s']}
+
+
+def _target_value(name, is_expr, ns):
+    if not is_expr:
+        return ns[name]
+    if name not in REG_EXPRS:
+        raise Raised('expr')
+    return REG_EXPRS[name](ns)
+
+
+def _decorate(text, params, sep):
+    p = {k: v for k, v in params}
+    text = text * int(p.get('n', '1'))
+    if 'upper' in p:
+        text = text.upper()
+    if 'label' in p:
+        text = p['label'] + sep + text
+    return text
+
+
 def ref_render(tree, ns):
     """Reference rendering of an expected program of the small-scope families (plain names, str values, lists)."""
     out = []
@@ -587,7 +703,8 @@ def ref_render(tree, ns):
             if n[2]:
                 raise Raised('expr')
             if n[1] in ns:
-                v = str(ns[n[1]])
+                v = ns[n[1]]
+                v = ref_render(v.tree, ns) if isinstance(v, RefSub) else str(v)
             else:
                 miss = [pv for pk, pv in n[3] if pk == 'missing']
                 if not miss:
@@ -609,6 +726,19 @@ def ref_render(tree, ns):
             out.append(v)
         elif k == 'comment':
             pass
+        elif k == 'cs':
+            # the add-on simple tag's documented meaning (see make_simple): value as text, n times, upper, label
+            _, cid, name, is_expr, params = n
+            out.append('%s[%s]' % (cid, _decorate(str(_target_value(name, is_expr, ns)), params, ':')))
+        elif k == 'cb':
+            # the add-on block tag's documented meaning (see make_block): the sections in order, each skipped when it has
+            # a condition that is false
+            parts = []
+            for sname, has, name, is_expr, params, body in n[3]:
+                if has and not _target_value(name, is_expr, ns):
+                    continue
+                parts.append('%s:%s;' % (sname, _decorate(ref_render(body, ns), params, '=')))
+            out.append('%s{%s}' % (n[1], ''.join(parts)))
         elif k == 'if':
             for name, is_expr, body in n[1]:
                 if ns[name]:
@@ -872,6 +1002,529 @@ def run_hostile(res, r, n_random, reqs, meta):
             check_group(res, 'stray-token:' + sname, srcs, False, reqs, meta, expect_status='parse-error', abstract=repr(t))
 
 
+# --------------------------------------------------------------------------- class C (round 6): histories of the tag registry
+# "over all tags": the set of tags is not fixed.  `String.commands` is the engine's tag registry; add-ons register their tags
+# in it after the package has been imported (TreeDisplay: `String.commands['tree'] = Tree`; ZSQLMethods' sqlvar / sqltest,
+# MailHost's sendmail do the same), either as the tag class or in the table's own lazy form (name, module, class name).
+# A HISTORY is a sequence of registry operations — register a new simple / block tag (with block continuations of its own,
+# with or without a `simple_form`), replace a registered or a built-in tag, remove one, put a built-in back — made through
+# every handle on the registry an application has (the attribute of either template class, of a template instance, of a
+# File class), interleaved with USES: an abstract template over the tags registered at that moment (+, after a removal,
+# the tag that is gone) printed in every syntax by P2 and compiled by both template classes and by plain subclasses of
+# them; sometimes with templates of BOTH classes, using the tag, as namespace values of one rendering.
+# What a use denotes is computed from the ABSTRACT registry kept here (a plain dict name -> Spec) and the add-on tags'
+# own documented meaning (make_simple / make_block; reference: ref_render), never from the library's table.
+# Not generated (each a known finding, see known_findings.json): tag names beginning with `end` (any case; `<!--#endX-->`
+# is an end tag) and tag names that are not made of letters only (the HTML scanner's tag name is [a-zA-Z]+).
+# Also left alone: `var` (the %(name)s form is an insertion by definition, not a registry lookup) and `else` (old-style
+# else-with-arguments is looked up in the registry by design).
+ADDON = 'c07_addon'
+ADDON_OPTS = {'upper': 1, 'label': '', 'n': '1'}
+BUILTIN = 'builtin'
+BUILTIN_TAGS = ['var', 'call', 'in', 'with', 'if', 'unless', 'else', 'comment', 'raise', 'try', 'let', 'return', 'tree']
+REPLACEABLE = ['call', 'comment', 'return', 'unless', 'with', 'let', 'raise', 'tree', 'in', 'if', 'try']
+TAG_NAMES = ['shout', 'twice', 'sqlvar', 'Shout', 'x', 'c', 'va', 'vars', 'iff', 'i', 'inn', 'elsewhere', 'e', 'en', 'sendmail',
+             'mime', 'A', 'zz', 'dtml', 'name', 'expr', 'VAR', 'If', 'switch', 'tre', 'trees', 'comments']
+CONT_SETS = [(), (), ('case', 'otherwise'), ('else',), ('elif', 'else'), ('boundary',), ('except', 'finally')]
+REG_VARS = ['c', 'd', 's', 'seq', 'e']
+_cid = [0]
+
+
+class Spec:
+    """one registered add-on tag: kind 'simple' | 'block', its continuations, whether it offers a simple_form, its class"""
+
+    def __init__(self, name, kind, conts=(), sf=False):
+        _cid[0] += 1
+        self.name, self.kind, self.conts, self.sf = name, kind, tuple(conts), sf
+        self.cid = 'T%d' % _cid[0]
+        self.cls = (make_simple if kind == 'simple' else make_block)(self)
+
+    def __repr__(self):
+        return '<%s %s %s%s%s>' % (self.cid, self.name, self.kind, '/' + ','.join(self.conts) if self.conts else '',
+                                   ' sf' if self.sf else '')
+
+
+def make_simple(spec):
+    """An add-on simple tag, written the way the documentation of the tag protocol asks: constructed from the argument
+    text, rendered by calling it with the namespace.  <dtml-NAME target [upper] [label=L] [n=K]> inserts
+    CID[ label: TEXT ] where TEXT = the value as text, K times, upper-cased on request."""
+    from DocumentTemplate.DT_Util import name_param, parse_params
+
+    class AddonSimple:
+        _c07_kind = 'cs'
+        name = spec.name
+        cid = spec.cid
+
+        def __init__(self, args):
+            a = parse_params(args, name='', expr='', **ADDON_OPTS)
+            self.target, self.expr = name_param(a, spec.name, 1)
+            self.args = a
+            if spec.sf and self.expr is None and not [k for k in a if k in ADDON_OPTS]:
+                self.simple_form = ('v', self.target)
+
+        def __call__(self, md):
+            v = md[self.target] if self.expr is None else self.expr.eval(md)
+            a = self.args
+            s = str(v) * int(a.get('n', '1'))
+            if 'upper' in a:
+                s = s.upper()
+            if 'label' in a:
+                s = a['label'] + ':' + s
+            return '%s[%s]' % (spec.cid, s)
+
+    AddonSimple.__name__ = AddonSimple.__qualname__ = spec.cid
+    return AddonSimple
+
+
+def make_block(spec):
+    """An add-on block tag: constructed from its sections [(tag name, argument text, section)], rendered by calling it.
+    Every section (the start tag's and those of the continuations) may carry a condition (name or expr) and the
+    options; it renders as NAME:[label=]BODY; (BODY n times, upper-cased on request) unless its condition is false."""
+    from DocumentTemplate._DocumentTemplate import render_blocks
+    from DocumentTemplate.DT_Util import name_param, parse_params
+
+    class AddonBlock:
+        _c07_kind = 'cb'
+        name = spec.name
+        cid = spec.cid
+        blockContinuations = spec.conts
+
+        def __init__(self, blocks, encoding=None):
+            self.encoding = encoding
+            self.secs = []
+            for tname, args, section in blocks:
+                a = parse_params(args, name='', expr='', **ADDON_OPTS)
+                if '' in a or 'name' in a or 'expr' in a:
+                    target, expr = name_param(a, tname, 1)
+                    self.secs.append((tname, True, target, expr, a, section.blocks))
+                else:
+                    self.secs.append((tname, False, None, None, a, section.blocks))
+            first = self.secs[0]
+            if spec.sf and len(self.secs) == 1 and first[1] and first[3] is None and \
+                    not [k for k in first[4] if k in ADDON_OPTS]:
+                self.simple_form = ('i', first[2], first[5])
+
+        def __call__(self, md):
+            out = []
+            for tname, has, target, expr, a, blocks in self.secs:
+                if has and not (md[target] if expr is None else expr.eval(md)):
+                    continue
+                s = render_blocks(blocks, md, encoding=self.encoding) * int(a.get('n', '1'))
+                if 'upper' in a:
+                    s = s.upper()
+                if 'label' in a:
+                    s = a['label'] + '=' + s
+                out.append('%s:%s;' % (tname, s))
+            return '%s{%s}' % (spec.cid, ''.join(out))
+
+    AddonBlock.__name__ = AddonBlock.__qualname__ = spec.cid
+    return AddonBlock
+
+
+@contextlib.contextmanager
+def addon_norm():
+    """parselib's structural printer, taught the add-on tags' instances (also inside the sections of built-in blocks)"""
+    orig = parselib.norm1
+
+    def norm1(b):
+        k = getattr(b, '_c07_kind', None)
+        if k == 'cs':
+            return ['cs', b.cid, parselib._ex(b.target, b.expr is not None), b.expr is not None, parselib.params(b.args)]
+        if k == 'cb':
+            return ['cb', b.cid, b.encoding, [
+                [tn, has, parselib._ex(tg, ex is not None), ex is not None, parselib.params(a), parselib.norm(blocks)]
+                for tn, has, tg, ex, a, blocks in b.secs]]
+        return orig(b)
+    parselib.norm1 = norm1
+    try:
+        yield
+    finally:
+        parselib.norm1 = orig
+
+
+def registry_handles():
+    """every way an application reaches the tag registry"""
+    from DocumentTemplate import HTML, File, HTMLFile, String
+    from DocumentTemplate import DT_HTML, DT_String
+    return [('String.commands', lambda: String.commands), ('HTML.commands', lambda: HTML.commands),
+            ("String('').commands", lambda: String('').commands), ("HTML('').commands", lambda: HTML('').commands),
+            ('DT_String.String.commands', lambda: DT_String.String.commands), ('HTMLFile.commands', lambda: HTMLFile.commands),
+            ('File.commands', lambda: File.commands), ('DT_HTML.HTMLDefault.commands', lambda: DT_HTML.HTMLDefault.commands)]
+
+
+class Sandbox:
+    """whatever a history does to the registry (to every table a handle reaches) is undone by reset()"""
+
+    def __init__(self):
+        self.tables = {}
+        for _, h in registry_handles():
+            d = h()
+            self.tables.setdefault(id(d), (d, dict(d)))
+        self.mod = sys.modules.get(ADDON) or types.ModuleType(ADDON)
+        sys.modules[ADDON] = self.mod
+
+    def reset(self):
+        for _, h in registry_handles():
+            d = h()
+            if id(d) not in self.tables:        # a table that was not there before
+                d.clear()
+        for d, saved in self.tables.values():
+            d.clear()
+            d.update(saved)
+
+
+@contextlib.contextmanager
+def registry_sandbox():
+    sb = Sandbox()
+    try:
+        with addon_norm():
+            yield sb
+    finally:
+        sb.reset()
+        sys.modules.pop(ADDON, None)
+
+
+class Registry:
+    """the abstract registry (what the oracle knows) and the operations that carry it out on the real one"""
+
+    def __init__(self, r, sandbox):
+        from DocumentTemplate import String
+        sandbox.reset()
+        self.r, self.mod = r, sandbox.mod
+        self.R = {n: BUILTIN for n in BUILTIN_TAGS}
+        self.original = {n: String.commands[n] for n in BUILTIN_TAGS if n in String.commands}
+        self.handles = registry_handles()
+        self.hist = []
+
+    def _pick(self, handle, form):
+        h = self.handles[handle % len(self.handles)] if handle is not None else self.r.choice(self.handles)
+        return h, form or self.r.choice(['class', 'class', 'lazy'])
+
+    def register(self, name, spec, handle=None, form=None):
+        (hname, h), form = self._pick(handle, form)
+        if form == 'lazy':
+            setattr(self.mod, spec.cid, spec.cls)
+            h()[name] = (name, ADDON, spec.cid)
+        else:
+            h()[name] = spec.cls
+        self.hist.append('%s[%r] = %s %r' % (hname, name, 'lazy entry of' if form == 'lazy' else 'class of', spec))
+        self.R[name] = spec
+
+    def remove(self, name, handle=None):
+        (hname, h), _ = self._pick(handle, 'class')
+        h().pop(name, None)
+        self.hist.append('del %s[%r]' % (hname, name))
+        self.R.pop(name, None)
+
+    def restore(self, name, handle=None):
+        (hname, h), _ = self._pick(handle, 'class')
+        h()[name] = self.original[name]
+        self.hist.append('%s[%r] = the built-in entry' % (hname, name))
+        self.R[name] = BUILTIN
+
+    def customs(self):
+        return sorted(n for n, s in self.R.items() if s is not BUILTIN)
+
+    def intact(self, name):
+        return self.R.get(name) is BUILTIN
+
+    def free_name(self):
+        free = [n for n in TAG_NAMES if n not in self.R]
+        return self.r.choice(free) if free else None
+
+
+def new_spec(r, name, kind=None):
+    kind = kind or r.choice(['simple', 'simple-sf', 'block', 'block', 'block-conts', 'block-conts', 'block-sf'])
+    if kind.startswith('simple'):
+        return Spec(name, 'simple', sf=kind.endswith('sf'))
+    conts = r.choice([c for c in CONT_SETS if c]) if kind == 'block-conts' else ()
+    return Spec(name, 'block', conts, sf=kind.endswith('sf'))
+
+
+def bodies_of(n):
+    """the sections of one abstract node"""
+    k = n[0]
+    if k == 'if':
+        return [b for _, b in n[1]] + ([n[2]] if n[2] is not None else [])
+    if k in ('unless', 'raise'):
+        return [n[2]]
+    if k == 'in':
+        return [n[3]] + ([n[4]] if n[4] is not None else [])
+    if k == 'with':
+        return [n[3]]
+    if k == 'let':
+        return [n[2]]
+    if k == 'try':
+        return [n[1]] + [b for _, b in n[2]] + [x for x in (n[3], n[4]) if x is not None]
+    if k == 'cb':
+        return [sb for _, _, _, sb in n[3]]
+    if k == 'unk':
+        return [n[3]] if n[3] is not None else []
+    if k == 'misclosed':
+        return [n[4]]
+    return []
+
+
+def tags_used(nodes):
+    """node kinds of an abstract template (for the built-in tags: the names it needs in the registry)"""
+    out = set()
+    for n in nodes:
+        if n[0] != 'lit':
+            out.add(n[0])
+            for b in bodies_of(n):
+                out |= tags_used(b)
+    return out
+
+
+def reg_namespaces():
+    """three plain namespaces (renderings predicted by ref_render) and one of logged callables (call log compared)"""
+    return [lambda log: dict(c=1, d=0, s='a<b', seq=[1, 2], e=[]),
+            lambda log: dict(c=0, d=1, s='', seq=[], e=[0]),
+            lambda log: dict(c='yes', d='', s='q"r&', seq=[7], e=[]),
+            lambda log: dict(c=Fn(log, 1, 1), d=Fn(log, 2, 0), s=Fn(log, 3, 'S&'), seq=Fn(log, 4, [1]), e=Fn(log, 5, []))]
+
+
+def gen_use(r, reg, force=None, unknown=None, depth=2):
+    """an abstract template over the registry `reg`: the add-on tags registered now, var / if / unless / in where those
+    are still the built-in ones; `force`: a tag that must occur; `unknown`: a name that is NOT registered, used as a tag"""
+    L = lambda s: ('lit', s)  # noqa: E731
+    todo = {'force': force, 'unknown': unknown}
+
+    def lits():
+        t = tmplgen.gen_lit(r, 2)
+        return [L(t)] if t else []
+
+    def target(expr_ok=True):
+        if expr_ok and r.random() < 0.15:
+            return ('expr', r.choice(sorted(REG_EXPRS)))
+        return ('name', r.choice(REG_VARS))
+
+    def options(valueless_ok):
+        opts = []
+        if r.random() < 0.3:
+            opts.append(('label', r.choice(['L', 'a/b', 'x y', 'else', '1'])))
+        if r.random() < 0.3:
+            opts.append(('n', r.choice(['1', '2', '3', '0'])))
+        if valueless_ok and r.random() < 0.3:
+            opts.append(('upper', None))
+        r.shuffle(opts)
+        return opts
+
+    def custom(name, depth):
+        spec = reg.R[name]
+        if spec.kind == 'simple':
+            if spec.sf and r.random() < 0.6:
+                return ('cs', name, spec, target(False), [])
+            return ('cs', name, spec, target(), options(True))
+        if spec.sf and r.random() < 0.6:
+            return ('cb', name, spec, [(name, target(False), [], body(depth - 1))])
+        secs = []
+        for sn in [name] + [r.choice(spec.conts) for _ in range(r.randint(0, 3) if spec.conts else 0)]:
+            if sn == 'else' or r.random() < 0.35:
+                secs.append((sn, None, [] if sn == 'else' else options(False), body(depth - 1)))
+            else:
+                secs.append((sn, target(), options(True), body(depth - 1)))
+        return ('cb', name, spec, secs)
+
+    def node(depth):
+        if todo['force'] is not None and (depth <= 0 or r.random() < 0.6):
+            name, todo['force'] = todo['force'], None
+            return custom(name, depth)
+        if todo['unknown'] is not None and (depth <= 0 or r.random() < 0.6):
+            name, todo['unknown'] = todo['unknown'], None
+            t = target() if r.random() < 0.8 else None
+            return ('unk', name, t, body(depth - 1) if r.random() < 0.5 else None)
+        kinds = ['var', 'var']
+        cs = reg.customs()
+        if cs:
+            kinds += ['custom'] * 4
+        if depth > 0:
+            kinds += [k for k in ('if', 'in', 'unless') if reg.intact(k)]
+        k = r.choice(kinds)
+        if k == 'custom':
+            return custom(r.choice(cs), depth)
+        if k == 'var':
+            return ('var', ('name', r.choice(REG_VARS)), r.choice([[], [], [('upper', None)], [('html_quote', None)]]))
+        if k == 'if':
+            return ('if', [(('name', r.choice(['c', 'd'])), body(depth - 1)) for _ in range(r.randint(1, 2))],
+                    body(depth - 1) if r.random() < 0.5 else None)
+        if k == 'unless':
+            return ('unless', ('name', r.choice(['c', 'd'])), body(depth - 1))
+        return ('in', ('name', r.choice(['seq', 'e'])), [], body(depth - 1), body(depth - 1) if r.random() < 0.4 else None)
+
+    def body(depth):
+        out = []
+        for _ in range(r.randint(1, 2) if depth >= 0 else 0):
+            out += lits()
+            out.append(node(depth))
+        return out + lits()
+
+    t = body(depth)
+    # whatever was asked for and did not come up by chance goes to the top level
+    while todo['force'] is not None or todo['unknown'] is not None:
+        t.insert(r.randint(0, len(t)), node(0))
+    return t
+
+
+def reg_spellings(t, r):
+    """two spellings per syntax by P2, + one <dtml-> / one %( spelling compiled by the subclasses; in random order"""
+    src = spellings(t, r, with_tmplgen=False)
+    src.append(('dtml-sub', 'html-sub', P2(r, r.choice(['dtml', 'ssi'])).nodes(t)))
+    src.append(('epfs-sub', 'epfs-sub', P2(r, 'epfs').nodes(t)))
+    r.shuffle(src)
+    return src
+
+
+def use(res, r, reg, reqs, meta, force=None, unknown=None, with_subs=False):
+    """one USE of the registry as it is now: see the head of this section"""
+    t = gen_use(r, reg, force=force, unknown=unknown)
+    extra, extra_ref = {}, {}
+    cs = reg.customs()
+    if with_subs and cs and unknown is None:
+        # templates of BOTH classes that use a registered tag, as values of the namespace of one rendering
+        sub = gen_use(r, reg, force=r.choice(cs), depth=0)
+        extra = {'subh': template_class('html')(P2(r, r.choice(['dtml', 'ssi'])).nodes(sub)),
+                 'subs': template_class('epfs')(P2(r, 'epfs').nodes(sub))}
+        extra_ref = {'subh': RefSub(expect(sub)), 'subs': RefSub(expect(sub))}
+        for nm in ('subh', 'subs'):
+            t.insert(r.randint(0, len(t)), ('var', ('name', nm), []))
+        res.count('registry_use_two_classes_in_one_rendering')
+    abstract = {'registry history': list(reg.hist), 'template': repr(t)}
+    res.nt(('registry', len(reg.hist), reg.hist[-1] if reg.hist else '', repr(t)[:60]))
+    res.count('registry_use')
+    # the model has the built-in table: it covers the uses without add-on tags whose tags are the built-in ones
+    eligible = all(reg.intact(k) for k in tags_used(t) - {'unk'}) and (unknown is None or unknown not in BUILTIN_TAGS)
+    rq, mt = (reqs, meta) if eligible else ([], [])
+    if unknown is not None:
+        res.count('registry_use_of_unregistered_tag')
+        check_group(res, 'registry:unregistered-tag', reg_spellings(t, r), False, rq, mt, extra=extra, nss=reg_namespaces(),
+                    expect_status='parse-error', expect_msg='Unexpected tag', abstract=abstract)
+        return
+    exp_tree = expect(t)
+    outs = []
+    for nsf in reg_namespaces()[:3]:
+        try:
+            outs.append({'ok': ref_render(exp_tree, dict(nsf(None), **extra_ref))})
+        except Raised:
+            outs.append(None)
+    check_group(res, 'registry:use', reg_spellings(t, r), False, rq, mt, extra=extra, nss=reg_namespaces(),
+                expect_status='ok', expect_tree=exp_tree, expect_out=outs + [None], abstract=abstract)
+
+
+def use_misclosed(res, r, reg, reqs, meta):
+    """a block tag of the registry (built-in or add-on) closed by the end tag of another name — the same name in another
+    case, another registered block tag, a name that is no tag: rejected alike as an unexpected end tag"""
+    blocks = [n for n in ('if', 'in', 'with', 'unless') if reg.intact(n)] + \
+        [n for n in reg.customs() if reg.R[n].kind == 'block']
+    if not blocks:
+        return
+    name = r.choice(blocks)
+    wrong = r.choice([w for w in [name.swapcase(), name.capitalize(), name.upper(), name + 'x', name[:-1] or 'q'] +
+                      [b for b in blocks] if w != name and not w.lower().startswith('end')])
+    t = [('lit', 'a'), ('misclosed', name, wrong, ('name', r.choice(['c', 'seq'])), gen_use(r, reg, depth=0)), ('lit', 'b')]
+    res.nt(('registry-misclosed', name, wrong, len(reg.hist)))
+    res.count('registry_use_misclosed_block')
+    eligible = name in BUILTIN_TAGS and all(reg.intact(k) for k in tags_used(t[1][4]))
+    rq, mt = (reqs, meta) if eligible else ([], [])
+    check_group(res, 'registry:misclosed-block', reg_spellings(t, r), False, rq, mt, nss=reg_namespaces(),
+                expect_status='parse-error', expect_msg='unexpected end tag',
+                abstract={'registry history': list(reg.hist), 'template': repr(t)})
+
+
+def use_builtin(res, r, reg, reqs, meta):
+    """a random template over ALL built-in tags (tmplgen) compiled while the registry holds add-on tags / after built-ins
+    were replaced and put back: still the program it denotes (and the model's)"""
+    for _ in range(20):
+        t = tmplgen.gen_template(r, r.choice([1, 2, 2]), 3)
+        if all(reg.intact(k) for k in tags_used(t)):
+            break
+    else:
+        return
+    res.nt(('registry-builtin', len(reg.hist), repr(t)[:60]))
+    res.count('registry_use_builtin_template')
+    check_group(res, 'registry:built-in-template', spellings(t, r), False, reqs, meta, expect_tree=expect(t),
+                abstract={'registry history': list(reg.hist), 'template': repr(t)})
+
+
+def run_registry(res, r, n_random, reqs, meta):
+    with registry_sandbox() as sb:
+        n_handles = len(registry_handles())
+        kinds = ['simple', 'simple-sf', 'block', 'block-conts', 'block-sf']
+        # small scope: every handle x both entry forms x every kind of tag: register, use, replace (other kind, other
+        # handle, other form), use, remove, use (rejected alike), register again, use
+        i = 0
+        for h in range(n_handles):
+            for form in ('class', 'lazy'):
+                for kind in kinds:
+                    i += 1
+                    reg = Registry(r, sb)
+                    name = TAG_NAMES[i % len(TAG_NAMES)]
+                    reg.register(name, new_spec(r, name, kind), h, form)
+                    use(res, r, reg, reqs, meta, force=name, with_subs=(i % 3 == 0))
+                    reg.register(name, new_spec(r, name, kinds[(kinds.index(kind) + 1 + i) % len(kinds)]), h + 1 + i,
+                                 'lazy' if form == 'class' else 'class')
+                    use(res, r, reg, reqs, meta, force=name, with_subs=(i % 3 == 1))
+                    use_misclosed(res, r, reg, reqs, meta)
+                    reg.remove(name, h + i)
+                    use(res, r, reg, reqs, meta, unknown=name)
+                    use(res, r, reg, reqs, meta, unknown=reg.free_name())      # a name that never was a tag
+                    if i % 2:
+                        reg.register(name, new_spec(r, name, kind), h + 2 * i, form)
+                        use(res, r, reg, reqs, meta, force=name)
+        # small scope: every replaceable built-in tag: replaced by an add-on tag, used; removed, used (rejected); put
+        # back, used in a template over the built-in tags
+        for j, b in enumerate(REPLACEABLE):
+            reg = Registry(r, sb)
+            reg.register(b, new_spec(r, b), j, ('class', 'lazy')[j % 2])
+            use(res, r, reg, reqs, meta, force=b)
+            reg.remove(b, j + 1)
+            use(res, r, reg, reqs, meta, unknown=b)
+            other = reg.free_name()
+            reg.register(other, new_spec(r, other), j + 2)
+            reg.restore(b, j + 3)
+            use(res, r, reg, reqs, meta, force=other)
+            use_builtin(res, r, reg, reqs, meta)
+        # random histories
+        for _ in range(n_random):
+            reg = Registry(r, sb)
+            for _ in range(r.randint(3, 8)):
+                op = r.choice(['register', 'register', 'register', 'replace', 'replace-builtin', 'remove', 'remove-builtin',
+                               'restore', 'never-registered'])
+                cs = [n for n in reg.customs() if n not in BUILTIN_TAGS]
+                gone = [n for n in REPLACEABLE if not reg.intact(n)]
+                if op == 'register' and reg.free_name():
+                    name = reg.free_name()
+                    reg.register(name, new_spec(r, name))
+                    use(res, r, reg, reqs, meta, force=name, with_subs=r.random() < 0.25)
+                elif op == 'replace' and cs:
+                    name = r.choice(cs)
+                    reg.register(name, new_spec(r, name))
+                    use(res, r, reg, reqs, meta, force=name, with_subs=r.random() < 0.25)
+                elif op == 'replace-builtin':
+                    name = r.choice(REPLACEABLE)
+                    reg.register(name, new_spec(r, name))
+                    use(res, r, reg, reqs, meta, force=name)
+                elif op == 'remove' and cs:
+                    name = r.choice(cs)
+                    reg.remove(name)
+                    use(res, r, reg, reqs, meta, unknown=name)
+                elif op == 'remove-builtin':
+                    name = r.choice(REPLACEABLE)
+                    reg.remove(name)
+                    use(res, r, reg, reqs, meta, unknown=name)
+                elif op == 'never-registered' and reg.free_name():
+                    use(res, r, reg, reqs, meta, unknown=reg.free_name())
+                elif op == 'restore' and gone:
+                    reg.restore(r.choice(gone))
+                    use_builtin(res, r, reg, reqs, meta)
+                else:
+                    continue
+                if r.random() < 0.3:
+                    use_builtin(res, r, reg, reqs, meta)
+                if r.random() < 0.3:
+                    use_misclosed(res, r, reg, reqs, meta)
+
+
 def run_wide(res, r, tier_n):
     reqs, meta = [], []
     run_reserved(res, r, tier_n, reqs, meta)
@@ -890,9 +1543,19 @@ def run(res, tier, have_driver):
                 'closing delimiter) at every free-text attribute site + random templates with several such attributes; stray '
                 'tokens after the attributes (rejected alike); each group (6 spellings from two printers): same acceptance, '
                 'same normalised program == the program the abstract template denotes, same output / exception / call log on '
-                '3 namespaces (== the predicted text in the small-scope families); non-trivial = distinct groups')
+                '3 namespaces (== the predicted text in the small-scope families); histories of the tag registry '
+                '(String.commands): add-on simple / block tags (own continuations, simple_form, class and lazy entries, custom '
+                'and built-in names) registered / replaced / removed / put back through 8 handles (both classes, instances, '
+                'File classes), after every step an abstract template over the tags registered then (or an unregistered name / '
+                'a mis-closed block: rejected alike) in 8 spellings (2 per syntax + subclasses of both template classes), '
+                'with templates of both classes as namespace values; expected program and text from the abstract registry '
+                'and the add-on tags\' documented meaning; non-trivial = distinct groups')
     run_all(res, r, 250 if tier == 'quick' else 5000, have_driver, tier != 'quick')
     reqs, meta = run_wide(res, common.rng('C07-wide'), 150 if tier == 'quick' else 3000)
+    if have_driver:
+        correspond(res, reqs, meta)
+    reqs, meta = [], []
+    run_registry(res, common.rng('C07-registry'), 40 if tier == 'quick' else 1000, reqs, meta)
     if have_driver:
         correspond(res, reqs, meta)
     res.assumptions += ['hand-compiled scanners validated against CPython re by token/tree correspondence',
@@ -900,6 +1563,10 @@ def run(res, tier, have_driver):
                         'undefined names, mappings)',
                         'expected programs / texts come from the abstract template (expect, ref_render in harness/props/c07.py: '
                         'documented line-end rule, missing= / null= / upper / lower / html_quote on plain strings)',
+                        'registry histories: the add-on tags are harness classes written to the documented tag protocol '
+                        '(parse_params / name_param / render_blocks); the registry is restored after every history; not '
+                        'generated: tag names beginning with `end` or containing a non-letter (known findings), replacing '
+                        '`var` / `else`',
                         'not generated: a variable named `var` with options; unquoted values ending in a Unicode blank; values '
                         'containing a double quote, "-->" or a tag opener (not printable in every syntax)']
 
@@ -910,6 +1577,8 @@ def search_more(res, tier):
     run_all(res2, r, 2500, False, True)
     if not res2.oracle_fail:
         run_wide(res2, common.rng('C07-wide-more'), 1500)
+    if not res2.oracle_fail:
+        run_registry(res2, common.rng('C07-registry-more'), 400, [], [])
     return res2.oracle_fail
 
 
